@@ -1,7 +1,10 @@
-(* C18 — thread pool: property theorems (statements in full; proofs in Proofs/Pool.v). *)
+(* C18 — thread pool: property theorems (statements in full; proofs in Proofs/Pool*.v).
+   Machine: Model/Pool.v, one step per instrumented primitive; c ranges over all pool
+   configurations (size, minw, njobs, do_close) and lock configurations, sched over all
+   lists of (thread, pop-choice); s is the state after ANY such schedule. *)
 From Coq Require Import List Arith Bool.
 Import ListNotations.
-From V Require Import Model.Pool Proofs.Pool Gen.GenPool Harness.H18.
+From V Require Import Model.Pool Proofs.Pool Proofs.PoolLock Proofs.PoolWake Proofs.PoolJobs Proofs.PoolFinal Gen.GenPool Harness.H18.
 
 (* the source under test takes count_lock around process, notify_done and both phases of close
    (recomputed from Pyro5/svr_threads.py on every run) *)
@@ -9,7 +12,8 @@ Theorem C18_source_fully_locked : all_locked gen_locks = true.
 Proof. exact (eq_refl true). Qed.
 Print Assumptions C18_source_fully_locked.
 
-Theorem C18_pool_invariants_partial :
+(* workers stay bounded; idle/busy bookkeeping; a refusal is decided only with no idle worker and SIZE busy ones *)
+Theorem C18_pool_invariants :
   forall (c : cfg) (sched : list (nat * nat)),
   all_locked (lk c) = true -> wf_cfg c ->
   let s := run c sched (init c) in
@@ -21,7 +25,7 @@ Theorem C18_pool_invariants_partial :
   /\ (forall i j, i < nw s -> w_slot (ws s i) = Some j -> closed s = false -> In i (busy s) /\ ~ In i (idle s))
   /\ (forall i, In i (idle s) -> w_slot (ws s i) = None).
 Proof. exact pool_invariants. Qed.
-Print Assumptions C18_pool_invariants_partial.
+Print Assumptions C18_pool_invariants.
 
 Theorem C18_lock_discipline :
   forall (c : cfg) (sched : list (nat * nat)),
@@ -33,6 +37,86 @@ Theorem C18_lock_discipline :
   /\ (forall i k, i < nw s -> k < nw s -> wcs (w_pc (ws s i)) = true -> wcs (w_pc (ws s k)) = true -> i = k).
 Proof. exact pool_lock_discipline. Qed.
 Print Assumptions C18_lock_discipline.
+
+(* every connection is accounted for exactly once: refused | held by exactly one worker, not yet started |
+   running on exactly one worker | ended; never run twice; never dropped while close has not begun *)
+Theorem C18_job_accounting :
+  forall (c : cfg) (sched : list (nat * nat)),
+  all_locked (lk c) = true -> wf_cfg c ->
+  let s := run c sched (init c) in
+  poolclosed s = [] /\ NoDup (started s) /\ NoDup (ended s) /\ NoDup (refused s)
+  /\ (forall j, jended s j -> In j (started s))
+  /\ (forall j, In j (started s) -> j < sub s /\ ~ jrefused s j /\ (jended s j \/ running s j))
+  /\ (forall j, jrefused s j -> j < sub s)
+  /\ (forall j, held s j -> j < sub s)
+  /\ (forall j, jrefused s j -> ~ held s j /\ ~ running s j /\ ~ jended s j)
+  /\ (forall j, held s j -> ~ In j (started s) /\ ~ running s j /\ ~ jended s j)
+  /\ (forall j, running s j -> In j (started s) /\ ~ jended s j)
+  /\ (forall i k j, i < nw s -> k < nw s -> w_slot (ws s i) = Some j -> w_slot (ws s k) = Some j -> i = k)
+  /\ (forall i k j, i < nw s -> k < nw s -> w_cur (ws s i) = Some j -> w_cur (ws s k) = Some j -> i = k)
+  /\ (quiet s -> forall j, j < sub s -> jrefused s j \/ held s j \/ running s j \/ jended s j).
+Proof. exact pool_job_accounting. Qed.
+Print Assumptions C18_job_accounting.
+
+(* a worker waiting with an unset event holds no job (except the one instant between the accept loop's slot
+   write and its Event.set), is never waiting like that once the pool is closed, and otherwise is an idle member *)
+Theorem C18_no_lost_wakeup :
+  forall (c : cfg) (sched : list (nat * nat)),
+  all_locked (lk c) = true -> wf_cfg c ->
+  let s := run c sched (init c) in
+  forall i, i < nw s -> w_pc (ws s i) = WWait ->
+  (forall j, w_slot (ws s i) = Some j -> w_ev (ws s i) = true \/ (i = m_w (mn s) /\ m_pc (mn s) = MEvSet))
+  /\ (closed s = true -> w_ev (ws s i) = true)
+  /\ (w_ev (ws s i) = false -> (i = m_w (mn s) /\ mtarget (m_pc (mn s)) = true) \/ (In i (idle s) /\ closed s = false)).
+Proof. exact pool_no_lost_wakeup. Qed.
+Print Assumptions C18_no_lost_wakeup.
+
+(* served until it starts: the holder of a job, run alone, starts it within four of its own steps *)
+Theorem C18_served_until_end :
+  forall (c : cfg) (sched : list (nat * nat)),
+  all_locked (lk c) = true -> wf_cfg c ->
+  let s := run c sched (init c) in
+  forall i j, i < nw s -> w_slot (ws s i) = Some j -> wpre (w_pc (ws s i)) = true ->
+  ~ (i = m_w (mn s) /\ m_pc (mn s) = MEvSet) ->
+  In j (started (run c (repeat (S i, 0) 4) s)).
+Proof. exact pool_served_until_end. Qed.
+Print Assumptions C18_served_until_end.
+
+(* close: once the flag is set no slot holds a job and no job ever starts again *)
+Theorem C18_close_no_new_job :
+  forall (c : cfg) (sched : list (nat * nat)),
+  all_locked (lk c) = true -> wf_cfg c ->
+  let s := run c sched (init c) in
+  closed s = true ->
+  (forall i, i < nw s -> w_slot (ws s i) = None) /\
+  forall more, closed (run c more s) = true /\ started (run c more s) = started s.
+Proof. exact pool_close_no_new_job. Qed.
+Print Assumptions C18_close_no_new_job.
+
+(* close: every own step of a worker brings it strictly closer to its exit (at most 13 steps, the end of its
+   current job included); it is never blocked on its event, only at count_lock while another thread holds it *)
+Theorem C18_close_worker_progress :
+  forall (c : cfg) (sched : list (nat * nat)),
+  all_locked (lk c) = true -> wf_cfg c ->
+  let s := run c sched (init c) in
+  closed s = true -> forall i, i < nw s -> w_pc (ws s i) <> WExit ->
+  match worker_step c i s with
+  | Some s' => exit_dist (w_pc (ws s' i)) < exit_dist (w_pc (ws s i)) /\ exit_dist (w_pc (ws s i)) <= 13
+  | None => w_pc (ws s i) = WAcq /\ exists t, lock s = Some t /\ t <> S i
+  end.
+Proof. exact pool_close_worker_progress. Qed.
+Print Assumptions C18_close_worker_progress.
+
+(* no deadlock: some thread is enabled (in particular the holder of count_lock always is) unless the accept loop
+   is done and every worker has exited or waits for a job; after close that means: every worker has exited *)
+Theorem C18_no_deadlock :
+  forall (c : cfg) (sched : list (nat * nat)),
+  all_locked (lk c) = true -> wf_cfg c ->
+  let s := run c sched (init c) in
+  (quiescent s \/ exists t, forall ch, step_opt c t ch s <> None)
+  /\ (closed s = true -> quiescent s -> forall i, i < nw s -> w_pc (ws s i) = WExit).
+Proof. exact pool_no_deadlock. Qed.
+Print Assumptions C18_no_deadlock.
 
 Theorem C18_unlocked_bookkeeping_refuted :
   exists c sched, wf_cfg c /\ all_locked (lk c) = false /\
@@ -46,3 +130,18 @@ Example C18_nonvacuous :
   all_locked (lk c) = true /\ wf_cfg c /\ started s = [0; 1] /\ ended s = [0; 1] /\ refused s = [2] /\ closed s = true /\ nw s = 2
   /\ w_pc (ws s 0) = WExit /\ w_pc (ws s 1) = WExit /\ m_pc (mn s) = MDone.
 Proof. exact pool_nonvacuous. Qed.
+
+Example C18_nonvacuous_held :
+  let c := mk_cfg 1 1 1 false (mk_lockcfg true true true true) in
+  let s := run c (repeat (0, 0) 8) (init c) in
+  all_locked (lk c) = true /\ wf_cfg c /\ quiet s /\ held s 0 /\ sub s = 1 /\ 0 < nw s /\
+  w_slot (ws s 0) = Some 0 /\ wpre (w_pc (ws s 0)) = true /\ ~ (0 = m_w (mn s) /\ m_pc (mn s) = MEvSet) /\
+  started s = [] /\ started (run c (repeat (1, 0) 4) s) = [0].
+Proof. exact pool_held_nonvacuous. Qed.
+
+Example C18_nonvacuous_close :
+  let c := mk_cfg 2 1 3 true (mk_lockcfg true true true true) in
+  let s := run c (concat (repeat [(0,0); (0,1); (1,0); (2,0); (0,0); (1,0); (0,2); (2,0)] 15)) (init c) in
+  all_locked (lk c) = true /\ wf_cfg c /\ closed s = true /\ 0 < nw s /\ w_pc (ws s 0) = WRead1 /\ w_pc (ws s 0) <> WExit /\
+  started s = [0; 1] /\ refused s = [2].
+Proof. exact pool_close_nonvacuous. Qed.
